@@ -382,6 +382,8 @@ def run(ck, facts, tier):
             ok, res = False, e
         ck.check(r6, key, ok, "float comparison is not the number comparison with the float promoted to new(f, []): %s" % (cel.vfmt(res)[:300] if not isinstance(res, Exception) else res),
                  where, sample="new(f, []) == number")
+    from rules import deps
+    deps.include_number_surface(ck, facts, tier)
     ck.not_decided += ["IndexSet/Arc behaviour (hash collisions, pointer identity) is trusted", "to_combined_vars' result order of names (either operand first; the statement makes results independent of it)"]
     ck.trusted += ["lib/cel.py array-comprehension semantics", "rules/gather.py normal forms"]
 
